@@ -79,6 +79,10 @@ BLOCKS = {
             lambda: _tok((2, 4), 7)),
     "bert": (lambda: EvolvableBERT([6, 5], [6, 5], end2end=True, src_vocab_size=7, tgt_vocab_size=7, d_model=4, n_head=2, dropout=0.0,
                                    max_encoder_layers=3, max_decoder_layers=3), lambda: (_tok((3, 2), 7), _tok((3, 2), 7, 1))),
+    "make_evo_cnn": (lambda: MakeEvolvable(torch.nn.Sequential(torch.nn.Conv2d(2, 3, 3), torch.nn.ReLU(), torch.nn.Conv2d(3, 3, 3), torch.nn.ReLU(), torch.nn.Flatten(),
+                                                               torch.nn.Linear(48, 4), torch.nn.ReLU(), torch.nn.Linear(4, 2)),
+                                            torch.zeros(1, 2, 8, 8), min_mlp_nodes=1, max_mlp_nodes=7, min_channel_size=1, max_channel_size=5,
+                                            min_cnn_hidden_layers=1, max_cnn_hidden_layers=3), lambda: _x((2, 8, 8))),
     # ---- networks (complete and partial configurations)
     "q_vec": (lambda: QNetwork(VEC, spaces.Discrete(3), encoder_config=dict(ENC_MLP), head_config=dict(HEAD), **LAT), lambda: _x((3,))),
     "q_vec_partial": (lambda: QNetwork(VEC, spaces.Discrete(2), encoder_config={"hidden_size": [3]}, latent_dim=4, min_latent_dim=1, max_latent_dim=40), lambda: _x((3,))),
@@ -97,6 +101,43 @@ BLOCKS = {
     "stoch_actor": (lambda: StochasticActor(VEC, spaces.Discrete(3), encoder_config=dict(ENC_MLP), head_config=dict(HEAD), **LAT), lambda: _x((3,))),
     "stoch_actor_box": (lambda: StochasticActor(IMG, spaces.Box(-1, 1, (2,)), encoder_config=dict(ENC_CNN), head_config=dict(HEAD), **LAT), lambda: _x((2, 8, 8))),
 }
+# ---- flag audit: every constructor flag of every block takes each non-default value in at least one block
+ACTS = ["Tanh", "ELU", "Softsign", "Sigmoid", "GumbelSoftmax", "Softplus", "Softmax", "LeakyReLU", "PReLU", "GELU", "Identity"]
+for _i, _a in enumerate(ACTS):
+    _o = ACTS[(_i + 3) % len(ACTS)]
+    BLOCKS[f"mlp_act_{_a}"] = ((lambda a=_a, o=_o: EvolvableMLP(3, 2, [4], layer_norm=False, activation=a, output_activation=o, **MLPB)), lambda: _x((3,)))
+BLOCKS.update({
+    "mlp_newgelu": (lambda: EvolvableMLP(3, 2, [4, 3], layer_norm=True, activation="GELU", output_activation="GELU", new_gelu=True, **MLPB), lambda: _x((3,))),
+    "mlp_noisy_std": (lambda: EvolvableMLP(3, 2, [4], layer_norm=False, noisy=True, noise_std=0.3, output_vanish=False, **MLPB), lambda: _x((3,))),
+    "cnn_noinit": (lambda: EvolvableCNN([2, 8, 8], 3, [3], [3], [2], init_layers=False, activation="Tanh", output_activation="Sigmoid", **CNNB), lambda: _x((2, 8, 8))),
+    "cnn3d_bn": (lambda: EvolvableCNN([1, 2, 7, 7], 2, [2], [3], [1], block_type="Conv3d", layer_norm=True, activation="ELU",
+                                      sample_input=torch.zeros(1, 1, 2, 7, 7), **CNNB), lambda: _x((1, 2, 7, 7))),
+    "lstm_drop": (lambda: EvolvableLSTM(2, 3, 2, num_layers=2, dropout=0.5, output_activation="Tanh", min_hidden_size=1, max_hidden_size=5), lambda: _x((3, 2))),
+    "simba_act": (lambda: EvolvableSimBa(3, 2, output_activation="Tanh", **dict(ENC_SIMBA, scale_factor=3)), lambda: _x((3,))),
+    "resnet_act": (lambda: EvolvableResNet([2, 6, 6], 2, 2, 2, 1, 1, scale_factor=3, output_activation="Sigmoid", min_channel_size=1, max_channel_size=5, min_blocks=1, max_blocks=3), lambda: _x((2, 6, 6))),
+    "multi_rec": (lambda: EvolvableMultiInput(spaces.Dict({"seq": SEQ, "vec": VEC}), 3, lstm_config=dict(ENC_LSTM), mlp_config=dict(ENC_MLP),
+                                              vector_space_mlp=True, recurrent=True, output_activation="Tanh", **LAT), lambda: {"seq": _x((4, 3)), "vec": _x((3,))}),
+    "multi_flat": (lambda: EvolvableMultiInput(spaces.Dict({"seq": SEQ, "vec": VEC, "img": IMG}), 3, cnn_config=dict(ENC_CNN), vector_space_mlp=False,
+                                               recurrent=False, **LAT), lambda: {"seq": _x((4, 3)), "vec": _x((3,)), "img": _x((2, 8, 8))}),
+    "cont_q_norm": (lambda: ContinuousQNetwork(VEC, spaces.Box(-2, 3, (2,)), encoder_config=dict(ENC_MLP), head_config=dict(HEAD), normalize_actions=True, **LAT),
+                    lambda: (_x((3,)), _x((2,)))),
+    "stoch_squash": (lambda: StochasticActor(VEC, spaces.Box(-2, 3, (2,)), encoder_config=dict(ENC_MLP), head_config=dict(HEAD), squash_output=True, action_std_init=0.5, **LAT), lambda: _x((3,))),
+    "stoch_multidiscrete": (lambda: StochasticActor(VEC, spaces.MultiDiscrete([2, 3]), encoder_config=dict(ENC_MLP), head_config=dict(HEAD), **LAT), lambda: _x((3,))),
+    "det_noclip": (lambda: DeterministicActor(VEC, spaces.Box(-2, 3, (2,)), encoder_config=dict(ENC_MLP), head_config=dict(HEAD, output_activation="Tanh"), clip_actions=False, **LAT), lambda: _x((3,))),
+    "rainbow_std": (lambda: RainbowQNetwork(VEC, spaces.Discrete(2), support=torch.linspace(-1, 1, 3), num_atoms=3, noise_std=0.2,
+                                            encoder_config=dict(ENC_MLP), head_config=dict(HEAD), **LAT), lambda: _x((3,))),
+    "q_custom_enc": (lambda: QNetwork(VEC, spaces.Discrete(2), encoder_cls=EvolvableMLP, encoder_config=dict(num_inputs=3, num_outputs=4, hidden_size=[4], **MLPB),
+                                      head_config=dict(HEAD), **LAT), lambda: _x((3,))),
+    "value_resnet_alias": (lambda: ValueNetwork(spaces.Box(0, 1, (2, 6, 6)), encoder_cls="ResNet",
+                                                encoder_config=dict(input_shape=[2, 6, 6], num_outputs=4, channel_size=2, kernel_size=3, stride_size=1, num_blocks=1,
+                                                                    scale_factor=2, min_channel_size=1, max_channel_size=5, min_blocks=1, max_blocks=3),
+                                                head_config=dict(HEAD), **LAT), lambda: _x((2, 6, 6))),
+    "q_head_gelu": (lambda: QNetwork(VEC, spaces.Discrete(2), encoder_config=dict(ENC_MLP, activation="GELU", new_gelu=True),
+                                     head_config=dict(HEAD, activation="GELU", new_gelu=True), **LAT), lambda: _x((3,))),
+})
+# blocks that only vary a flag of an architecture already walked in full: a reduced set of chains
+LIGHT_BLOCKS = {f"mlp_act_{a}" for a in ACTS} | {"mlp_noisy_std", "cnn_noinit", "cnn3d_bn", "lstm_drop", "simba_act", "resnet_act",
+                                                  "cont_q_norm", "stoch_squash", "stoch_multidiscrete", "det_noclip", "rainbow_std", "q_head_gelu"}
 QUICK_BLOCKS = list(BLOCKS)
 
 # values offered for the optional arguments of the mutation methods (None = let the method draw);
@@ -126,9 +167,25 @@ def method_params(module, method):
         return []
 
 
-def forward(module, x, seed=7):
-    """deterministic evaluation-mode output (sampling layers are seeded)"""
-    module.eval()
+def forward(module, x, seed=7, mode="eval"):
+    """deterministic output (sampling layers are seeded). mode: "eval" / "train" set the flag on the whole module first
+    (in train mode the buffers are restored afterwards, so running statistics are not moved); "asis" leaves the
+    module's flags exactly as the library left them."""
+    if mode == "eval":
+        module.eval()
+    elif mode == "train":
+        module.train()
+    saved = [(b, b.detach().clone()) for b in module.buffers()] if mode != "eval" else []
+    try:
+        return _forward(module, x, seed)
+    finally:
+        for b, v in saved:
+            b.data.copy_(v)
+        if mode == "train":
+            module.eval()
+
+
+def _forward(module, x, seed):
     torch.manual_seed(seed)
     np.random.seed(seed)
     with torch.no_grad():
@@ -185,10 +242,16 @@ def build_agent(algo):
         return TD3(VEC, spaces.Box(-1, 1, (2,)), net_config=net)
     if algo == "ppo":
         return PPO(VEC, spaces.Discrete(3), net_config=net)
+    if algo in ("maddpg", "matd3"):                 # lists of networks: the list branch of reinit_from_mutated
+        from agilerl.algorithms import MADDPG, MATD3
+        ids = ["speaker_0", "listener_0"]
+        cls = MADDPG if algo == "maddpg" else MATD3
+        return cls(observation_spaces=[VEC, spaces.Box(-1, 1, (4,))], action_spaces=[spaces.Box(-1, 1, (2,)), spaces.Box(-1, 1, (2,))],
+                   agent_ids=ids, net_config=net)
     raise ValueError(algo)
 
 
-AGENTS = ["dqn", "dqn_img", "cqn", "ddpg", "ddpg_unshared", "td3", "ppo"]
+AGENTS = ["dqn", "dqn_img", "cqn", "ddpg", "ddpg_unshared", "td3", "ppo", "maddpg", "matd3"]
 
 
 def agent_groups(agent):
